@@ -234,6 +234,7 @@ def gen_history(seed, tier):
         programs.append(prog)
         roles[str(t)] = "client"
     cfg = simgen.gen_engine_config(rng, tier, ntasks)
+    simgen.tame_for_line_mode(programs, cfg)
     if cfg["mode"] == "none":
         cfg["mode"] = "cold"
     frng = rng_for(seed, "faults")
